@@ -98,6 +98,14 @@ func (p *Pipe) SetFault(f PipeFault) { p.mu.Lock(); p.fault = f; p.mu.Unlock() }
 // FaultFired reports whether the fault actually affected a Read.
 func (p *Pipe) FaultFired() bool { p.mu.Lock(); defer p.mu.Unlock(); return p.faultFired }
 
+// ReadState tells how far the reader got: bytes consumed, whether the writer has closed its end, whether a read
+// fault has fired.
+func (p *Pipe) ReadState() (consumed int64, writerClosed bool, faultFired bool) {
+	p.mu.Lock()
+	defer p.mu.Unlock()
+	return p.consumed, p.wclosed, p.faultFired
+}
+
 // Written returns the number of bytes accepted so far.
 func (p *Pipe) Written() int64 { p.mu.Lock(); defer p.mu.Unlock(); return p.written }
 
